@@ -143,7 +143,7 @@ func (r *runningRoutine[K, V]) execute(
 					r.deferRetry = time.AfterFunc(dur, func() {
 						verifhook.Point(verifhook.KeyedTimer, r.k)
 						r.k.mtx.Lock()
-						if r.k.ctx != nil && r.k.routines[r.key] == r && r.exited {
+						if r.k.ctx != nil && r.k.routines[r.key] == r && r.exited && (r.ctx == ctx || r.ctx == nil) {
 							r.start(r.k.ctx, r.exitedCh, true)
 						}
 						r.k.mtx.Unlock()
